@@ -201,7 +201,43 @@ def path_submsgs(ix, p, depth=8):
         m2 = ix.param_map(e.target, e.args)
         for s in reachable_submsgs(ix, e.target, m2, (p.fn.pretty,), depth):
             out[(s.v, s.fn.key)] = s
-    return list(out.values())
+    return _resolve_ids(ix, p, list(out.values()))
+
+
+def _resolve_ids(ix, p, sites):
+    """a reply id computed by a helper (`reply_id_for(..)` returning one of a few constants): one site per constant
+    the helper can return, restricted by what this path already knows about that call (`match id { 7 => .., other => .. }`)"""
+    res = []
+    for s in sites:
+        idv = s.id
+        if tag(idv) != "call" or ix.call_target(idv) is None:
+            res.append(s)
+            continue
+        try:
+            outs = ix.outcomes(idv) or []
+        except Exception:
+            outs = []
+        vals = []
+        for (_cp, ret, _m) in outs:
+            r = ix.inline(ret)
+            if tag(r) != "int":
+                vals = None
+                break
+            vals.append(int(payload(r)[0]))
+        if not vals:
+            res.append(s)
+            continue
+        allowed = set(vals)
+        for (at, o, _b, _l) in p.conds:
+            if ix.inline(at) == ix.inline(idv) and isinstance(o, tuple):
+                if o[0] == "eq":
+                    allowed &= {int(o[1])}
+                elif o[0] == "notin":
+                    allowed -= {int(x) for x in o[1]}
+        for n in sorted(allowed):
+            v2 = sym.set_field(s.v, "id", sym.intc(n, "u64"))
+            res.append(SubMsgSite(v2, s.fn, s.chain))
+    return res
 
 
 class ReplyTable:
